@@ -54,13 +54,20 @@ class HandlerStub(_server.ConnectionHandler):
 class SemStub:
     """asyncio.Semaphore / asyncio.Lock stand-in: `held` counts permits held through this object."""
 
-    async def __aenter__(self):
+    async def acquire(self):
         await sem_acquire_point(self)
         self.held = self.held + 1
+        return True
+
+    def release(self):
+        self.held = self.held - 1
+
+    async def __aenter__(self):
+        await self.acquire()
         return None
 
     async def __aexit__(self, et, e, tb):
-        self.held = self.held - 1
+        self.release()
 
 
 class StreamStub:
@@ -559,7 +566,7 @@ def s_server_event(vc):
     keys = _tr_keys(vc, h)
     if kind == "open":
         io = [v for k, v in (h.transports.items if vc.mode == "sym" else h.transports.items()) if k is fresh]
-        vc.ensure("open.task_created_and_registered", len(created) == 1 and len(io) == 1 and io[0].handler is created[0] and io[0].writer is None or isnone(io[0].writer))
+        vc.ensure("open.task_created_and_registered", len(created) == 1 and len(io) == 1 and io[0].handler is created[0] and (io[0].writer is None or isnone(io[0].writer)))
         vc.ensure("open.task_runs_open_connection", len(created) == 1 and len(coros) == 1 and coros[0][0] == "open_connection" and coros[0][1] is cmds[0] and hook_name(vc, created[0].coro) == "CoroStub")
     else:
         vc.ensure("transports_unchanged", len(keys) == 2)
